@@ -45,4 +45,43 @@ Section Shortcut.
     if (S i <? j)%nat && (j <? length p)%nat && mv (nth i p d) (nth j p d) then firstn (S i) p ++ skipn j p else p.
   Definition shortcuts (p : list St) (ijs : list (nat * nat)) (d : St) : list St :=
     fold_left (fun q ij => shortcut q (fst ij) (snd ij) d) ijs p.
+
+  (* ---- PathSimplifier::reduceVertices itself: the loop, its two counters, the choice of the vertex pair from two
+     uniform variates (given as fractions num/den in [0,1)), the repair of pairs closer than two apart ---- *)
+  Definition uniform_int (lo hi : Z) (u : Z * Z) : Z := Z.min hi (lo + ((hi + 1 - lo) * fst u) / snd u).     (* RNG::uniformInt *)
+  Definition rv_pick (count range : Z) (u1 u2 : Z * Z) : option (nat * nat) :=
+    let maxN := count - 1 in
+    let p1 := uniform_int 0 maxN u1 in
+    let p2 := uniform_int (Z.max (p1 - range) 0) (Z.min maxN (p1 + range)) u2 in
+    let p2' := if Z.abs (p1 - p2) <? 2 then (if p1 <? maxN - 1 then Some (p1 + 2) else if 1 <? p1 then Some (p1 - 2) else None) else Some p2 in
+    match p2' with None => None | Some q => Some (Z.to_nat (Z.min p1 q), Z.to_nat (Z.max p1 q)) end.
+  Variable range_of : Z -> Z.              (* 1 + floor(0.5 + count * rangeRatio) *)
+  Fixpoint rv_loop (steps_left nochange maxEmpty : nat) (p : list St) (tape : list (Z * Z)) (changed : bool) (d : St) : list St * bool :=
+    match steps_left with
+    | O => (p, changed)
+    | S k =>
+      if (nochange <? maxEmpty)%nat then
+        let u1 := hd (0, 1) tape in let u2 := hd (0, 1) (tl tape) in let tape' := tl (tl tape) in
+        let count := Z.of_nat (length p) in
+        match rv_pick count (range_of count) u1 u2 with
+        | None => rv_loop k (S nochange) maxEmpty p tape' changed d
+        | Some (a, b) =>
+          if mv (nth a p d) (nth b p d) then rv_loop k 1 maxEmpty (firstn (S a) p ++ skipn b p) tape' true d
+          else rv_loop k (S nochange) maxEmpty p tape' changed d
+        end
+      else (p, changed)
+    end.
+  Definition reduce_vertices (p : list St) (maxSteps maxEmpty : nat) (tape : list (Z * Z)) (d : St) : list St * bool :=
+    if (length p <? 3)%nat then (p, false)
+    else
+      let ms := if (maxSteps =? 0)%nat then length p else maxSteps in
+      let me := if (maxEmpty =? 0)%nat then length p else maxEmpty in
+      if mv (hd d p) (last p d) then ([hd d p; last p d], true)
+      else rv_loop ms 0 me p tape false d.
 End Shortcut.
+
+(* the instance run against the implementation: vertices are numbered, the motion validator is a table of accepted pairs,
+   rangeRatio = num / den *)
+Definition rv_run (n maxSteps maxEmpty : nat) (rnum rden : Z) (ok : list (nat * nat)) (tape : list (Z * Z)) : list nat * bool :=
+  reduce_vertices nat (fun a b => existsb (fun q => Nat.eqb (fst q) a && Nat.eqb (snd q) b) ok)
+                  (fun count => 1 + (rden + 2 * count * rnum) / (2 * rden)) (seq 0 n) maxSteps maxEmpty tape 0%nat.
